@@ -138,7 +138,7 @@ def mutants_reach(site: int, mut: int, rsel: int, tag: str, vsel: int,
 CONDITIONS = [
     {'fn': 'mutants', 'slices': pipeline.C04_SLICES,
      'quick_slices': pipeline.C04_QUICK_SLICES, 'quick': 110,
-     'thorough': 1500, 'bound': pipeline.MUTANT_BOUND +
+     'thorough': 600, 'bound': pipeline.MUTANT_BOUND +
      '; models: trap_loose, trap_any, trap_dict, trap_typed, loose, top_any'},
     {'fn': 'mutants_reach',
      'slices': [pipeline.slice_for('trap_loose', 0, 2)],
